@@ -29,6 +29,7 @@ mod optin_corr;
 mod vertical_corr;
 mod optin_inproc;
 mod optin_e2e;
+mod budgets_corr;
 mod corpus;
 mod gen;
 mod sweep;
@@ -109,6 +110,7 @@ fn main() {
         "missed-c03" | "missed-c08" | "missed-c16" | "missed-c02" => missed_corr::run_part(&prop[7..], &tier, seed, &out),
         "optin" => optin_corr::run(&tier, seed, &out),
         "vertical" => vertical_corr::run(&tier, seed, &out),
+        "budgets" => budgets_corr::run(&tier, seed, &out),
         "optin-dump" => optin_corr::dump(&args[2], args.get(3)),
         "boundary" => boundary::main(&args[2..]),
         "c03" => c03::run(&tier, seed, &out),
